@@ -8,7 +8,7 @@ import OpenFGAVerif.Driver.StoreW
 open OpenFGAVerif OpenFGAVerif.Proto OpenFGAVerif.Model.StoreTypes OpenFGAVerif.Model.StoreWrite OpenFGAVerif.Driver.StoreW
 
 /-- model-independent checks on two consecutive dumps of the store -/
-def changelogCheck (backend : String) (prev cur : Obs) : Option String :=
+def changelogCheck (backend : String) (prev cur : Obs) (distinctKeys : Bool) : Option String :=
   let pc := prev.changes.map obsChangeStr
   let cc := cur.changes.map obsChangeStr
   let pt := prev.tuples.map fmtTuple
@@ -24,7 +24,9 @@ def changelogCheck (backend : String) (prev cur : Obs) : Option String :=
     let gone := prev.tuples.filter (fun t => !ct.contains (fmtTuple t))
     let came := cur.tuples.filter (fun t => !pt.contains (fmtTuple t))
     let want := gone.map (fun t => "-" ++ fmtTuple t.redact) ++ came.map (fun t => "+" ++ fmtTuple t)
-    if sortStrings (cc.drop pc.length) != sortStrings want then
+    -- (a key that is deleted and written again in one request — possible only below the command layer — shows as a
+    --  pair of entries without a change of the tuple set: such requests are left to the replay check)
+    if distinctKeys && sortStrings (cc.drop pc.length) != sortStrings want then
       some s!"the changelog did not get exactly one entry per effective write/delete [{backend}]"
     else none
 
@@ -58,7 +60,7 @@ def cStep (backend : String) (acc : CAcc) (tok : String) (g : String) : CAcc :=
       let expected := ";".intercalate [mres, m'.dump]
       { acc with m := m', prev := cur, now := acc.now + 1,
                  diff := if g != expected then some (s!"request {acc.now}: " ++ expected) else none,
-                 viol := (changelogCheck backend acc.prev cur).map (· ++ s!" at request {acc.now}"),
+                 viol := (changelogCheck backend acc.prev cur (!hasDupKeys (r.dels ++ r.writes.map (·.key)))).map (· ++ s!" at request {acc.now}"),
                  oks := acc.oks + (if res == "ok" then 1 else 0) }
   | _, _ => { acc with diff := some "malformed case or output" }
 
